@@ -7,7 +7,8 @@
 (*   kind "tod" : a series on a subset of NDays x NSlots intraday points, bounds = times of day  *)
 (*                on a grid twice as fine, including windows that wrap past midnight;            *)
 (*   kind "stitch": k series over p index points with k increasing or decreasing bounds and      *)
-(*                n in 1..k, for every <<k, p>> in StitchCfg.                                    *)
+(*                n in 1..k, for every <<k, p>> in StitchCfg; action Again continues a stitch    *)
+(*                case as a session of calls on the same lists (every invariant holds again).   *)
 (* EvalGen prints every case with the outcome the specification expects (S2C).                   *)
 EXTENDS Slice, TLC, Json
 CONSTANTS NPts, NDays, NSlots, StitchCfg
@@ -54,6 +55,14 @@ Fr    == res
 Eval  == /\ done = FALSE /\ done' = TRUE
          /\ res' = IF IsSlice THEN Sl(lb, ub, oc) ELSE Stitch(s, ubs, n)
          /\ UNCHANGED <<kind, s, lb, ub, oc, ubs, n>>
+
+\* a session: the caller stitches again, with another n, handing over the same two lists
+Again == /\ done /\ IsStitch
+         /\ \E m \in 1..Len(ubs) : m # n /\ n' = m /\ res' = Stitch(s, ubs, m)
+         /\ UNCHANGED <<kind, s, lb, ub, oc, ubs, done>>
+Next  == Eval \/ Again
+\* no call touches its arguments (so every call of a session means what the caller wrote)
+ArgsFrame == [][s' = s /\ ubs' = ubs /\ lb' = lb /\ ub' = ub /\ oc' = oc]_vars
 
 EvalGen == Eval /\ PrintT(ToJson(
     IF IsSlice THEN [kind |-> cs.kind, B |-> B, s |-> cs.s, lb |-> cs.lb, ub |-> cs.ub, oc |-> cs.oc,
